@@ -365,6 +365,23 @@ Proof.
 Qed.
 Print Assumptions c06_acn_walkers_return.
 
+(* DecodeAddress (libs/acn/DMPAddress.cpp) for the only combination a received datagram can reach
+   (DMPE131Inflator::HandlePDUData returns unless Size() == TWO_BYTES && Type() == RANGE_EQUAL): on a buffer of any
+   size holding n bytes it reads nothing at or beyond n.  For this combination the code as it is and the proposed
+   fix coincide (`decode_address` differs from the unchanged code only for NON_RANGE two-/four-byte addresses). *)
+Theorem c06_acn_decode_address : forall buf n z,
+  bytes_ok buf = true -> n <= len buf -> run buf (decode_address DMP_TWO_BYTES DMP_RANGE_EQUAL n) <> Hazard z.
+Proof. intros buf n z Hb Hn. apply (bounded_no_hazard n); auto. apply decode_address_bounded. Qed.
+Print Assumptions c06_acn_decode_address.
+
+(* with the proposed, UNAPPLIED fix (fixes-optional-not-applied/03: NON_RANGE copies one field, not three) the same
+   holds for every address size and type; in the unchanged tree NON_RANGE two-/four-byte addresses read 6 / 12 bytes
+   after checking 2 / 4 - a latent defect of the library function that no received datagram can reach *)
+Theorem c06_acn_decode_address_proposedfix : forall buf size typ n z,
+  bytes_ok buf = true -> n <= len buf -> run buf (decode_address size typ n) <> Hazard z.
+Proof. intros buf size typ n z Hb Hn. apply (bounded_no_hazard n); auto. apply decode_address_bounded. Qed.
+Print Assumptions c06_acn_decode_address_proposedfix.
+
 (* independent of the capacity and of what the socket layer reports: for a receive buffer of ANY size and ANY reported
    length n < 2^31 the handler returns (its loops end within their fuel: PDU block walks: fuel = block length + 1, each PDU advances the offset by at least its 2-byte length field; discovery page walk: 2 bytes per turn) and never divides by zero; and if
    the buffer does hold n bytes it reads nothing at or beyond n *)
@@ -557,17 +574,17 @@ Proof.
 Qed.
 Print Assumptions c06_artnet_any_length.
 
-(* history level: any sequence of datagrams, each followed in the receive buffer by arbitrary stale bytes, from any
+(* history level: any sequence of datagrams (each with its sender's address), each followed in the receive buffer by arbitrary stale bytes, from any
    initial state: no datagram ends in a hazard, and every output and the final state are the same whatever the
    stale tails are *)
-Theorem c06_artnet_history : forall (h1 h2 : list (unit * list N * list N)) s,
+Theorem c06_artnet_history : forall (h1 h2 : list (N * list N * list N)) s,
   Forall (fun x => let '(_, d, t) := x in bytes_ok d = true /\ bytes_ok t = true /\ len d <= 1228) h1 ->
   Forall2 (fun x y => fst x = fst y) h1 h2 ->
-  (exists r, run_hist (fun (_ : unit) n st => artnet_handle n st) (fun _ r => fst r) s h1 = Done r) /\
-  run_hist (fun (_ : unit) n st => artnet_handle n st) (fun _ r => fst r) s h1 = run_hist (fun (_ : unit) n st => artnet_handle n st) (fun _ r => fst r) s h2.
+  (exists r, run_hist (fun from n st => artnet_handle n (set_from st from)) (fun _ r => fst r) s h1 = Done r) /\
+  run_hist (fun from n st => artnet_handle n (set_from st from)) (fun _ r => fst r) s h1 = run_hist (fun from n st => artnet_handle n (set_from st from)) (fun _ r => fst r) s h2.
 Proof.
   intros h1 h2 s Hok H2.
-  assert (Hb : forall i n st, n <= AN_PACKET_SIZE -> bounded n ((fun (_ : unit) n st => artnet_handle n st) i n st)) by (intros; apply artnet_bounded; assumption).
+  assert (Hb : forall i n st, n <= AN_PACKET_SIZE -> bounded n ((fun from n st => artnet_handle n (set_from st from)) i n st)) by (intros; apply artnet_bounded; assumption).
   split.
   - apply (hist_safe AN_PACKET_SIZE _ _ Hb). exact Hok.
   - apply (hist_stale_free AN_PACKET_SIZE _ _ Hb); assumption.
@@ -577,8 +594,8 @@ Print Assumptions c06_artnet_history.
 (* an ArtDmx for universe 0x23 on net 4 carrying 3 slots, then stale bytes: accepted, buffer replaced *)
 Example ex_artnet_handled :
   run ([65; 114; 116; 45; 78; 101; 116; 0; 0; 80] ++ [0; 14; 0; 1; 35; 4; 0; 3] ++ [7; 8; 9] ++ repeat 165 1207)
-      (artnet_handle 21 (mk_an_state 4 35 37 None [] false true 256 None))
-  = Done (mk_an_state 4 35 37 (Some [7; 8; 9]) [] false true 256 None, [EvData 0]).
+      (artnet_handle 21 (mk_an_state 4 35 37 None [] false true 256 None 2 false (None, None) (None, None)))
+  = Done (mk_an_state 4 35 37 (Some [7; 8; 9]) [] false true 256 None 2 false (Some (2, Some [7; 8; 9]), None) (None, None), [EvData 0]).
 Proof. vm_compute. reflexivity. Qed.
 
 (* ---------------------------------------------------------------- ESP Net
